@@ -97,6 +97,20 @@ fn apply_galois_exact(cfg: &Cfg, grp: &str, case: u64, rng: &mut Rng, rep: &mut 
             if let Err(e) = valid_ct(&kit, &res) { viol(&o, rep, "apply_galois", spec.scheme_name(), "invalid_result", e); continue; }
             if res.size() != 2 || res.parms_id() != ct.parms_id() || res.is_ntt_form() != ct.is_ntt_form() || res.correction_factor() != ct.correction_factor() { viol(&o, rep, "apply_galois", spec.scheme_name(), "metadata", format!("g={}", g)); continue; }
             let want = refm::automorphism(m, g, t);
+            // the plaintext-side map of the same element (apply_galois_plain, three forms, dirty destination): applying it to the
+            // plaintext must give the same polynomial as applying the element to the ciphertext
+            if sname == "fresh" && level == 0 {
+                let pl = kit.plain_from_coeffs(m);
+                let pform = rng.below(3);
+                let pname = ["apply_galois_plain_inplace", "apply_galois_plain", "apply_galois_plain_new"][pform as usize];
+                match lib(|| match pform { 0 => { let mut x = pl.clone(); kit.eval.apply_galois_plain_inplace(&mut x, g); x } 1 => { let mut d = kit.plain_from_coeffs(&want.iter().map(|&v| (v + 1) % t).collect::<Vec<u64>>()); kit.eval.apply_galois_plain(&pl, g, &mut d); d } _ => kit.eval.apply_galois_plain_new(&pl, g) }) {
+                    Err(p) => viol(&o, rep, pname, spec.scheme_name(), "panic", format!("g={}: {}", g, p.0)),
+                    Ok(pr) => {
+                        rep.count("apply_galois_plain", &format!("{}|{}", spec.scheme_name(), pname));
+                        if plain_coeffs(&pr, n) != want { viol(&o, rep, pname, spec.scheme_name(), "value", format!("g={}: the plaintext-side map gives {:?} but X -> X^g of the plaintext is {:?}", g, &plain_coeffs(&pr, n)[..n.min(8)], &want[..n.min(8)])); }
+                    }
+                }
+            }
             if case == 0 && level == 0 && sname == "fresh" && g == elts[elts.len() / 2] { rep.sample(json!({"group": grp, "params": spec.describe(), "galois_element": g, "plaintext_head": m[..n.min(8)], "expected_head": want[..n.min(8)], "decrypted_head": exact_poly(&kit, &oracle, &res).ok().map(|x| x.0[..n.min(8)].to_vec())})); }
             match exact_poly(&kit, &oracle, &res) {
                 Err(p) => viol(&o, rep, "apply_galois", &format!("{}|decrypt", spec.scheme_name()), "panic", p.0),
